@@ -247,36 +247,14 @@ theorem C14_adjacency_symm (coords : List V3) (cs : Rat) (sel : Option (List Boo
     rw [hpi] at hp; cases hp
     exact ⟨_, hpj, hsi, hsj, by rw [sqDist_comm]; exact hd⟩
 
-/-! ## periodic (orthorhombic) — partial
+/-! ## periodic (orthorhombic box `diag(Lx,Ly,Lz)`, all lengths > 0)
 
-Full statement aimed at (NOT proved as one theorem; see notes/C14.md):
-`t ∈ get_atoms(q, r) ↔ sel t ∧ ∃ n ∈ ℤ³, |coords[t] + n∘L − q|² ≤ r²` (minimum-image distance).
-Proved pieces: (a) exactness over the moved-inside + 27-fold replicated coordinate array with
-`index % n` (`C14_periodic_exact_partial`), (b) moving inside the box changes a coordinate by a
-lattice vector and lands in `[0, L)` (`C14_wrap_lattice`), (c) for two points inside the box the
-nearest image along each axis is among the shifts `-1, 0, 1` (`C14_min_image_1d`).  The remaining
-gap is list-index bookkeeping (`position = image * n + atom`), covered by the exact periodic
-correspondence stream only. -/
-
-theorem C14_periodic_exact_partial (coords : List V3) (cs : Rat) (b : V3) (sel : Option (List Bool)) (c : CL)
-    (h : mk coords cs (some b) sel = some (.ok c)) (q : V3) (r : Rat) (hr : 0 ≤ r) (t : Nat) :
-    t ∈ c.atomsOne q r ↔
-      ∃ t' p', (replicate b (coords.map (wrapV b)))[t']? = some p' ∧ t' % coords.length = t ∧
-        (selMask sel coords.length)[t' % coords.length]? = some true ∧
-        sqDist (wrapV b q) p' ≤ r * r := by
-  obtain ⟨hwf, hcoord, hn, hbox, -, -, -, hsel⟩ := mk_ok coords cs (some b) sel c h
-  rw [atomsOne_eq]
-  simp only [CL.post, CL.prepQ, hbox, List.mem_map]
-  constructor
-  · rintro ⟨t', ht', rfl⟩
-    obtain ⟨p', hp', hs, hd⟩ := (mem_rawAtoms c hwf (wrapV b q) r hr t').mp ht'
-    refine ⟨t', p', by rw [hcoord] at hp'; exact hp', by rw [hn], ?_, hd⟩
-    rw [← hsel, ← hn]
-    simpa [CL.selected] using hs
-  · rintro ⟨t', p', hp', rfl, hs, hd⟩
-    refine ⟨t', (mem_rawAtoms c hwf (wrapV b q) r hr t').mpr ⟨p', by rw [hcoord]; exact hp', ?_, hd⟩, by rw [hn]⟩
-    rw [← hsel, ← hn] at hs
-    simpa [CL.selected] using hs
+No hypothesis relating `r` to the box lengths is needed: `move_inside_box` puts the atoms *and the
+query* into `[0,L)³`, so per axis the separation is in `(-L, L)` and the nearest image is always one
+of the shifts `-1, 0, 1` that the single replication layer of `repeat_box_coord` provides
+(`C14_min_image_1d`).  For `r` larger than the box the index output merely lists an atom several
+times (once per image within `r`); as a *set* — and as a mask — the result is still exact
+(example below, replayed on the real code in the corpus). -/
 
 /-- `move_inside_box` (one axis): the result lies in `[0, L)` and differs from the input by an
 integer multiple of the box length. -/
@@ -290,7 +268,145 @@ theorem C14_min_image_1d (L d : Rat) (hL : 0 < L) (h1 : -L < d) (h2 : d < L) (m 
     ∃ s : Int, (s = -1 ∨ s = 0 ∨ s = 1) ∧ (d + s * L) * (d + s * L) ≤ (d + m * L) * (d + m * L) :=
   min_image_1d L d hL h1 h2 m
 
+/-- Index bookkeeping of `repeat_box_coord`: position `image·n + atom` of the replicated array
+holds image `shifts[image]` of the moved-inside atom (so `position % n` is the atom). -/
+theorem C14_replicate_index (b : V3) (coords : List V3) (t' : Nat) (p' : V3) :
+    (replicate b (coords.map (wrapV b)))[t']? = some p' ↔
+      ∃ si t s p, t' = si * coords.length + t ∧ shifts[si]? = some s ∧ coords[t]? = some p ∧
+        p' = shiftV b s (wrapV b p) :=
+  replicate_getElem? b coords t' p'
+
+/-- **Periodic exactness, lattice form.** For every query point (inside or outside the box), every
+radius `r ≥ 0` (also larger than the box) and every selection, `get_atoms(q, r)` of a periodic
+cell list returns exactly the selected atoms that have *some* lattice translate within `r` of `q`. -/
+theorem C14_periodic_exact_lattice (coords : List V3) (cs : Rat) (b : V3) (sel : Option (List Bool)) (c : CL)
+    (h : mk coords cs (some b) sel = some (.ok c)) (q : V3) (r : Rat) (hr : 0 ≤ r) (t : Nat) :
+    t ∈ c.atomsOne q r ↔
+      ∃ p, coords[t]? = some p ∧ (selMask sel coords.length)[t]? = some true ∧
+        ∃ n : I3, sqDist q (shiftV b n p) ≤ r * r :=
+  periodic_exact coords cs b sel c h q r hr t
+
+/-- The squared minimum-image distance `Σ_axis min(e, L-e)²`, `e = (p-q) mod L`, is attained by a
+lattice translate and is a lower bound for all of them. -/
+theorem C14_minImage_is_min (b : V3) (hb : 0 < b.x ∧ 0 < b.y ∧ 0 < b.z) (q p : V3) :
+    (∃ n : I3, sqDist q (shiftV b n p) = minImageSq b q p) ∧
+    ∀ n : I3, minImageSq b q p ≤ sqDist q (shiftV b n p) := by
+  constructor
+  · obtain ⟨n, hn⟩ := (lattice_iff_minImage b hb q p (minImageSq b q p)).mpr (le_refl _)
+    have := (lattice_iff_minImage b hb q p (sqDist q (shiftV b n p))).mp ⟨n, le_refl _⟩
+    exact ⟨n, le_antisymm hn this⟩
+  · intro n
+    exact (lattice_iff_minImage b hb q p _).mp ⟨n, le_refl _⟩
+
+/-- **C14_periodic_exact.** `get_atoms(q, r)` in periodic (orthorhombic) mode =
+`{a | selected a ∧ minimum-image dist²(a, q) ≤ r²}`. -/
+theorem C14_periodic_exact (coords : List V3) (cs : Rat) (b : V3) (sel : Option (List Bool)) (c : CL)
+    (h : mk coords cs (some b) sel = some (.ok c)) (q : V3) (r : Rat) (hr : 0 ≤ r) (t : Nat) :
+    t ∈ c.atomsOne q r ↔
+      ∃ p, coords[t]? = some p ∧ (selMask sel coords.length)[t]? = some true ∧
+        minImageSq b q p ≤ r * r := by
+  rw [periodic_exact coords cs b sel c h q r hr t]
+  have hb := boxPos_of_mk coords cs b sel c h
+  constructor
+  · rintro ⟨p, hp, hs, hn⟩; exact ⟨p, hp, hs, (lattice_iff_minImage b hb q p _).mp hn⟩
+  · rintro ⟨p, hp, hs, hn⟩; exact ⟨p, hp, hs, (lattice_iff_minImage b hb q p _).mpr hn⟩
+
+/-- masks ⇔ indices in periodic mode (the index list may repeat an atom, the mask cannot). -/
+theorem C14_periodic_mask (coords : List V3) (cs : Rat) (b : V3) (sel : Option (List Bool)) (c : CL)
+    (h : mk coords cs (some b) sel = some (.ok c)) (q : V3) (r : Rat) (hr : 0 ≤ r) (t : Nat) :
+    (c.asMask (c.atomsOne q r))[t]? = some true ↔ t ∈ c.atomsOne q r := by
+  rw [mem_asMask]
+  constructor
+  · exact fun h => h.2
+  · intro ht
+    refine ⟨?_, ht⟩
+    obtain ⟨p, hp, -, -⟩ := (periodic_exact coords cs b sel c h q r hr t).mp ht
+    rw [(mk_ok coords cs (some b) sel c h).2.2.1]
+    exact (List.getElem?_eq_some_iff.mp hp).1
+
+/-- Periodic `get_atoms_in_cells(q, R)` ⊇ selected atoms with a lattice translate within Chebyshev
+distance `R·cs` of `q`. -/
+theorem C14_periodic_cells_superset (coords : List V3) (cs : Rat) (b : V3) (sel : Option (List Bool)) (c : CL)
+    (h : mk coords cs (some b) sel = some (.ok c)) (q : V3) (R : Int) (t : Nat) (p : V3)
+    (hp : coords[t]? = some p) (hs : (selMask sel coords.length)[t]? = some true)
+    (n : I3) (hn : near q (shiftV b n p) (R * cs)) : t ∈ c.cellsOne q R :=
+  periodic_cells_superset coords cs b sel c h q R t p hp hs n hn
+
+/-- Periodic adjacency matrix: `n` rows; `(i,j)` is set iff both atoms are selected and some lattice
+translate of `j` is within `thr` of `i` (equivalently: minimum-image dist² ≤ thr²). -/
+theorem C14_periodic_adjacency_eq (coords : List V3) (cs : Rat) (b : V3) (sel : Option (List Bool)) (c : CL)
+    (h : mk coords cs (some b) sel = some (.ok c)) (thr : Rat) (rows : List (List Nat))
+    (ha : c.adjacency thr = some (.ok rows)) :
+    rows.length = coords.length ∧
+    ∀ (i : Nat) (row : List Nat) (pi : V3), rows[i]? = some row → coords[i]? = some pi → ∀ j : Nat,
+      j ∈ row ↔ ∃ pj, coords[j]? = some pj ∧ (selMask sel coords.length)[i]? = some true ∧
+        (selMask sel coords.length)[j]? = some true ∧ minImageSq b pi pj ≤ thr * thr := by
+  obtain ⟨hwf, hcoord, hn, hbox, hcs, hselerr, -, hsel⟩ := mk_ok coords cs (some b) sel c h
+  have hb := boxPos_of_mk coords cs b sel c h
+  have hlen := selMask_length coords sel hselerr
+  have hbase : List.take c.n c.coord = coords.map (wrapV b) := by
+    rw [hcoord, hn]; simp only [allCoords]
+    have := take_replicate b (coords.map (wrapV b))
+    rwa [List.length_map] at this
+  obtain ⟨hthr, hrows⟩ := adjacency_rows c thr rows (by rw [hbase, hsel, hlen]; simp) ha
+  rw [hbase, hsel] at hrows
+  subst hrows
+  constructor
+  · simp [hlen]
+  · intro i row pi hrow hpi j
+    simp only [List.getElem?_map, List.getElem?_zip_eq_some, Option.map_eq_some_iff] at hrow
+    obtain ⟨⟨p', bb⟩, ⟨⟨p0, hp0, hp'⟩, hb'⟩, rfl⟩ := hrow
+    rw [hpi] at hp0
+    have e1 := Option.some.inj hp0; subst e1
+    subst hp'
+    cases bb with
+    | false =>
+      simp only [Bool.false_eq_true, if_false, List.not_mem_nil, false_iff]
+      rintro ⟨pj, -, hsi, -⟩
+      rw [hb'] at hsi; simp at hsi
+    | true =>
+      simp only [if_true]
+      rw [periodic_exact coords cs b sel c h (wrapV b pi) thr hthr j]
+      constructor
+      · rintro ⟨pj, hpj, hsj, hd⟩
+        exact ⟨pj, hpj, hb', hsj, (lattice_iff_minImage b hb pi pj _).mp ((exists_lattice_wrap b hb pi pj _).mp hd)⟩
+      · rintro ⟨pj, hpj, -, hsj, hd⟩
+        exact ⟨pj, hpj, hsj, (exists_lattice_wrap b hb pi pj _).mpr ((lattice_iff_minImage b hb pi pj _).mpr hd)⟩
+
+/-- The minimum-image distance is symmetric, hence so is the periodic adjacency matrix. -/
+theorem C14_periodic_adjacency_symm (coords : List V3) (cs : Rat) (b : V3) (sel : Option (List Bool)) (c : CL)
+    (h : mk coords cs (some b) sel = some (.ok c)) (thr : Rat) (rows : List (List Nat))
+    (ha : c.adjacency thr = some (.ok rows)) (i j : Nat) (ri rj : List Nat)
+    (hi : rows[i]? = some ri) (hj : rows[j]? = some rj) : j ∈ ri ↔ i ∈ rj := by
+  obtain ⟨hlen, hspec⟩ := C14_periodic_adjacency_eq coords cs b sel c h thr rows ha
+  have hb := boxPos_of_mk coords cs b sel c h
+  have hil : i < coords.length := by rw [← hlen]; exact (List.getElem?_eq_some_iff.mp hi).1
+  have hjl : j < coords.length := by rw [← hlen]; exact (List.getElem?_eq_some_iff.mp hj).1
+  have hpi : coords[i]? = some coords[i] := List.getElem?_eq_getElem hil
+  have hpj : coords[j]? = some coords[j] := List.getElem?_eq_getElem hjl
+  have hsym : ∀ (a d : V3) (r2 : Rat), minImageSq b a d ≤ r2 → minImageSq b d a ≤ r2 := by
+    intro a d r2 hd
+    obtain ⟨n, hn⟩ := (lattice_iff_minImage b hb a d r2).mpr hd
+    exact (lattice_iff_minImage b hb d a r2).mp ⟨_, by rw [← sqDist_shift_symm]; exact hn⟩
+  rw [hspec i ri _ hi hpi j, hspec j rj _ hj hpj i]
+  constructor
+  · rintro ⟨p, hp, hsi, hsj, hd⟩
+    rw [hpj] at hp
+    have e := Option.some.inj hp; subst e
+    exact ⟨_, hpi, hsj, hsi, hsym _ _ _ hd⟩
+  · rintro ⟨p, hp, hsj, hsi, hd⟩
+    rw [hpi] at hp
+    have e := Option.some.inj hp; subst e
+    exact ⟨_, hpj, hsi, hsj, hsym _ _ _ hd⟩
+
 example : wrap1 8 (-1) = 7 ∧ wrap1 8 16 = 0 := by decide +kernel
+
+-- radius far beyond the box (r = 20 > L = 8): nothing is rejected and nothing is missed; the index
+-- list repeats atoms (one entry per image within r), the set / mask is still exact
+example : ∃ c, mk [⟨0,0,0⟩, ⟨7,0,0⟩, ⟨4,4,4⟩] 8 (some ⟨8,8,8⟩) none = some (.ok c) ∧
+    (c.atomsOne ⟨3,0,0⟩ 20).length = 81 ∧ c.asMask (c.atomsOne ⟨3,0,0⟩ 20) = [true, true, true] ∧
+    minImageSq ⟨8,8,8⟩ ⟨0,0,0⟩ ⟨7,0,0⟩ = 1 :=
+  ⟨_, rfl, by decide +kernel, by decide +kernel, by decide +kernel⟩
 
 /-! ## non-vacuity: the hypotheses are satisfiable and the model computes the expected sets -/
 
